@@ -23,12 +23,18 @@ TECHNIQUE = "runtime monitoring: order/lattice laws and a set-of-features model 
 LEVEL_TEXT = (
     "Every ==, <=, hash, union, intersection result observed on generated pairs/triples of kinds (all versions, deprecated "
     "features included) and on kinds logged from the library is checked against the order and lattice laws and against an "
-    "independent set model with its own upgrade table; held on the pairs observed only."
+    "independent set model with its own upgrade table; in the thorough tier the repository's own test-suite is re-run with "
+    "pass-through wrappers on ProblemKind.__eq__/__le__/__hash__/union/intersection and every result is compared with the "
+    "same set model; held on the pairs observed only."
 )
 LEVEL_NOTE = (
     "Trusted: CPython sets, vk/ref/lattice.py (version table and upgrade rules transcribed from the documentation, compared "
     "with the library's table at start-up). Purity of comparisons, >, >=, < are outside the statement: deviations are counted "
-    "as observations, not judged."
+    "as observations, not judged. Suite monitor (vk/mon/universal.install_kindorder): trusted are also pytest/xdist and the "
+    "monkey-patched operator wrappers; operands are read through .features/.version BEFORE the call (<= prunes them); == and "
+    "<= must equal the set model (cross-version: == false, <= after upgrading the older operand); kinds with equal model "
+    "(version, valid features) seen in one process must hash equally; same-version union/intersection must equal the model, "
+    "a cross-version union must have the newer version and lie above both operands (as in the directed part)."
 )
 RULE = (
     "a case = one pair (or chain triple) of kind specs (features, declared version in {None,1,2,3}); generated with a bias "
@@ -37,7 +43,9 @@ RULE = (
     "against a fresh kind with the same raw features; plus all pairs of kinds logged "
     "from the library. evaluations = judged pairs + judged triples + twin judgements. distinct_nontrivial = distinct pairs of the same "
     "version that are comparable but unequal, or equal with different raw feature sets, plus distinct cross-version pairs "
-    "where the older kind is changed by the upgrade."
+    "where the older kind is changed by the upgrade. Thorough tier only: one run of unified_planning/test under M-kindorder; "
+    "one evaluation = one operator call judged (suite:M-kindorder:judged); witnesses carry the test id (\"suite\": true) and are "
+    "replayed by re-running that test file under the monitor; inconclusive if the suite ran and fewer than 1000 calls were judged."
 )
 ASSUMPTIONS = [
     "the set model vk/ref/lattice.py states the intended meaning of a kind: the features valid at its version",
@@ -661,10 +669,19 @@ def run_logged(tier, res):
                 return
 
 
+SUITE = (("kindorder",), "M-kindorder:judged")
+
+
 def run_shard(spec, res):
     diff = check_tables(res)
     if diff is not None:
         raise RuntimeError(f"oracle version table differs from the library's FEATURES_VERSIONS: {diff}")
+    if spec["tier"] == "thorough" and spec["shard"] == 1:
+        # the repository's own test-suite re-run with the universal monitor M-kindorder installed (DESIGN §4): every ==, <=, hash,
+        # union, intersection the library evaluates on its own kinds (engine selection, compilers, tests) is judged by the set model
+        from vk.mon import suite as _suite
+
+        _suite.feed(res, PROPERTY, _suite.run_suite(SUITE[0]), SUITE[1])
     feats_all = all_features()
     for key in spec["cases"]:
         run_case(key, spec["tier"], res, feats_all)
@@ -673,6 +690,11 @@ def run_shard(spec, res):
 
 
 def replay(witness, res):
+    if witness.get("suite"):
+        from vk.mon import suite as _suite
+
+        _suite.replay_suite(res, PROPERTY, SUITE[0], SUITE[1], witness)
+        return
     feats_all = all_features()
     key = witness["case_key"]
     if key.startswith("C33:logged"):
@@ -707,4 +729,7 @@ def thresholds(m):
             out.append(f"fewer than {n} observations of class {k} ({c.get(k, 0)})")
     if len(m["nontrivial"]) < 2000:
         out.append("fewer than 2000 distinct non-trivial pairs")
+    from vk.mon import suite as _suite
+
+    out.extend(_suite.thresholds(c, SUITE[1], 1000))
     return out
